@@ -1,9 +1,12 @@
 #!/bin/sh
 # Usage: tools/try_seed.sh <seed-id> <property> [extra check args]
-# Applies the seeded change to /repo, runs the property's quick check, and reverts.
+# Applies the seeded change to /repo, runs the property's quick check, and reverts. The evidence
+# file of the property is put back afterwards: committed evidence describes the unchanged tree.
 ID="$1"; PROP="$2"; shift 2
 git -C /repo apply /verif/seeded/$ID/patch.diff || exit 2
+cp /verif/evidence/$PROP.json /tmp/try-evidence-$PROP.json 2>/dev/null
 /verif/check "$PROP" --tier quick "$@" > /tmp/try-$ID.log 2>&1; RC=$?
 git -C /repo checkout -- .
+[ -f /tmp/try-evidence-$PROP.json ] && mv /tmp/try-evidence-$PROP.json /verif/evidence/$PROP.json
 echo "SEED $ID vs $PROP: exit=$RC $(grep -c '^VIOLATION' /tmp/try-$ID.log) violation line(s)"
 grep -E '^VIOLATION|^  harness' /tmp/try-$ID.log | head -6
